@@ -104,7 +104,7 @@ def c16(tier):
 
 
 def c01(tier):
-    build("vh", "vh-debug", "cli")
+    build("vh", "vh-debug", "cli", "shim")
     r = Result("C01", "exploration", "one evaluation = one (basis, source, block size) case through Signature::generate / sync trait / async engine, both delta engines and both patch engines (4 combinations) with a recording basis reader, or one CLI chain (signature|delta|patch through files + `copia sync` with DST absent/identical/basis); distinct non-trivial = distinct (block size, edit script shape, basis size class) whose delta has >= 1 copy AND >= 1 literal op")
     th = tier == "thorough"
     if not VARIANT:
@@ -122,7 +122,7 @@ def c01(tier):
 
 
 def c05(tier):
-    build("vh", "vh-debug", "cli")
+    build("vh", "vh-debug", "cli", "shim")
     r = Result("C05", "fault_enumeration", "one evaluation = one faulted (basis', delta') pair (1-3 faults from a 22-entry catalogue, or every single-field fault of a <= 6-op delta) through both patch engines with a recording reader under catch_unwind, or one `copia patch` run on the serialised pair; verdict: Ok => BLAKE3(output) == delta'.checksum and output == literals ++ basis' ranges; panic/signal => violation; distinct non-trivial = distinct (fault class, outcome) pairs")
     th = tier == "thorough"
     if not VARIANT:
@@ -163,7 +163,7 @@ def c19(tier):
 
 
 def c20(tier):
-    build("vh", "vh-debug", "cli")
+    build("vh", "vh-debug", "cli", "shim")
     r = Result("C20", "exploration", "one evaluation = one value round trip (Message/Codec via 1-7 byte reads/FrameHeader/bincode files), one decode call on arbitrary or mutated bytes inside an allocation-counting scope + catch_unwind (verdict: no panic, no single request > 16 MiB + 4 KiB, header accepted <=> magic & version & type & length predicate), or one `copia delta|patch` run on a hostile file under RLIMIT_AS = 2 GiB and a 60 s watchdog; distinct non-trivial = distinct (decoder or message kind, mutation class or corrupted field, outcome)")
     th = tier == "thorough"
     if not VARIANT:
